@@ -402,6 +402,27 @@ Proof.
   intros [|[|j]] Hj; [split; reflexivity|split; reflexivity|lia].
 Qed.
 
+(* max_pages = None means NO limit - for an explicit None and for PaginationConfig::default(),
+   whose max_pages is None: any number of good pages followed by a final page are all fetched
+   and all returned *)
+Theorem c18_paginate_unlimited_fetches_all :
+  forall (T M : Type) (c : pagination_cfg) (fetch : N -> N -> res (list T * bool) M)
+         (fuel n : nat) (items : list T),
+    max_pages c = None ->
+    (forall j, (j < n)%nat -> page_good fetch (page_size c) j = true) ->
+    fetch (N.of_nat n) (page_size c) = ROk (items, false) -> items <> [] ->
+    (n < fuel)%nat -> (N.of_nat n < u32_max)%N ->
+    paginate_cfg fuel c fetch =
+    (Done (ROk (pages_cat fetch (page_size c) 0 (S n))), page_calls (page_size c) 0 (S n)).
+Proof. exact paginate_unlimited_all_pages. Qed.
+Example c18_paginate_unlimited_fetches_all_ex :
+  page_size pagination_cfg_default = 100%N /\ max_pages pagination_cfg_default = None /\
+  (* 1005 pages under the default configuration: 1005 fetches, 1005 items *)
+  (let r := paginate_cfg 2000 pagination_cfg_default ex_long in
+   length (snd r) = 1005%nat /\
+   match fst r with Done (ROk l) => length l = 1005%nat /\ last l 0%N = 1004%N | _ => False end).
+Proof. vm_compute. repeat split; reflexivity. Qed.
+
 (* max_pages = Some 0: no page is fetched, the result is empty *)
 Theorem c18_paginate_zero_limit :
   forall (T M : Type) (mp : option N) (ps : N) (fetch : N -> N -> res (list T * bool) M) (fuel : nat),
